@@ -379,6 +379,22 @@ func runC05(c *Ctx) {
 			c05Record(c, "from-wire", g)
 		}
 	}
+	// length octets that are computed from the length of a text field when it is read back: the field at and around the
+	// lengths where `uint8(len(text))` wraps before it is halved (HIP: HIT of 127, 128, 200, 255 octets; the key likewise)
+	for _, hitLen := range []int{1, 16, 127, 128, 129, 200, 254, 255} {
+		for _, keyLen := range []int{1, 3, 300} {
+			rd := []byte{byte(hitLen), 2, byte(keyLen >> 8), byte(keyLen)}
+			rd = append(rd, r.Bytes(hitLen)...)
+			rd = append(rd, r.Bytes(keyLen)...)
+			if r.Bool() {
+				rd = append(rd, wireOf([][]byte{[]byte("rvs"), []byte("example")})...)
+			}
+			g := &GenRR{Type: dns.TypeHIP, Class: 1, TTL: 60, Owner: [][]byte{[]byte("hip"), []byte("example")}, Rdata: rd}
+			g.Wire = assembleRR(g.Owner, g.Type, g.Class, g.TTL, g.Rdata)
+			c.Hit(fmt.Sprintf("length-octets:HIP:hit=%d", hitLen))
+			c05Record(c, "length-octets", g)
+		}
+	}
 	// record types the library does not know: the RFC 3597 form out and in again (what is printed for a record read from
 	// text must be readable too: `text-not-stable`)
 	for i, n := 0, c.Scale(400, 6000); i < n; i++ {
